@@ -128,3 +128,53 @@ def jobs(tier, seed):
 
 
 harness("C09.columns", jobs, sym, conc)
+
+
+# ------------------------------------------------------------------ the same operations on a lazily selected operand (relational)
+def _view_ops():
+    return {"sum0": lambda d: (d.sum(axis=0) if d.size else ("empty",)), "col_counts": lambda d: (d.col_counts() if d.size else ("empty",)),
+            "colvals": lambda d: d.get_column_values(0), "mean0": lambda d: (d.mean(axis=0) if d.size else ("empty",))}
+
+
+def sym_onview(E, p, kf):
+    import z3
+    from symx import specs
+    from . import programs
+    from npstructures import RaggedArray
+    R = E.concretize(E.int("R", 0, p["R"]))
+    lens = [E.int(f"l{r}", 0, p["L"]) for r in range(R)]
+    S = E.concretize(z3.Sum(lens) if lens else z3.IntVal(0))
+    data = [E.int(f"d{q}", -50, 50) for q in range(S)]
+    P = programs.ParamStore(E, B=2)
+    case = dict(p=p, lens=lens, data=data, params=P.values)
+    od, of, oa = programs.on_view(RaggedArray, lens, data, "int64", p["pre"], _view_ops()[p["op"]], P)
+    if od["k"] != of["k"]:
+        return dict(goal=False, got=od, case=case)
+    goal = specs.conj([specs.obs_goal(od, of) if od["k"] != "raise" else True, specs.obs_goal(oa, dict(k="ragged", flat=data, lens=lens, dtype="int64"))])
+    return dict(goal=goal, got=od, case=case)
+
+
+def conc_onview(case):
+    from . import programs
+    from npstructures import RaggedArray
+    p = case["p"]
+    P = programs.ParamStore(None, dict(case["params"]), B=2)
+    od, of, oa = programs.on_view(RaggedArray, case["lens"], case["data"], "int64", p["pre"], _view_ops()[p["op"]], P)
+    if od["k"] == "raise" and of["k"] == "raise":
+        of = common.refused()
+    return od, of, {"float_eq": True}
+
+
+def jobs_onview(tier, seed):
+    from . import programs
+    q = tier == "quick"
+    out = []
+    for op in _view_ops():
+        for pre in programs.VIEW_STEPS:
+            if q and pre in ("colstepm2", "colslice_a") and op not in ("sum0", "concat", "cumsum"):
+                continue
+            out.append(dict(R=3, L=2 if q else 3, pre=pre, op=op))
+    return [dict(h="C09.onview", p=p) for p in out]
+
+
+harness("C09.onview", jobs_onview, sym_onview, conc_onview)
